@@ -100,12 +100,18 @@ type txSession struct {
 	// op line records (and what the model is given); every later answer for the same account differs (other nonce, no
 	// balance, or a lookup error), every later guard verdict is inverted. The code must consult it once per account.
 	drift  bool
+	// pool: when set, every callback also reads the pool through its public API (a session is free to do so while a
+	// selection is running: what the selection has snapshotted must not be disturbed by it)
+	pool   *txcache.TxCache
 	mu     sync.Mutex
 	asked  map[string]int
 	gasked map[string]int
 }
 
 func (s *txSession) GetAccountState(a []byte) (*types.AccountState, error) {
+	if s.pool != nil {
+		_ = s.pool.GetTransactionsPoolForSender(string(a))
+	}
 	n := 0
 	if s.drift {
 		s.mu.Lock()
@@ -134,6 +140,10 @@ func (s *txSession) GetAccountState(a []byte) (*types.AccountState, error) {
 }
 func (s *txSession) IsIncorrectlyGuarded(tx data.TransactionHandler) bool {
 	d := s.host.byPtr[tx.(data.TransactionWithFeeHandler)]
+	if s.pool != nil {
+		_ = s.pool.GetTransactionsPoolForSender(string(d.sender))
+		_ = s.pool.Keys()
+	}
 	if s.drift {
 		s.mu.Lock()
 		if s.gasked == nil {
@@ -152,7 +162,7 @@ func (s *txSession) IsInterfaceNil() bool { return s == nil }
 
 // fresh: the same external session at the start of a NEW SelectTransactions call (first answers again)
 func (s *txSession) fresh() *txSession {
-	return &txSession{accts: s.accts, bad: s.bad, host: s.host, drift: s.drift}
+	return &txSession{accts: s.accts, bad: s.bad, host: s.host, drift: s.drift, pool: s.pool}
 }
 
 type txCfg struct {
@@ -237,6 +247,10 @@ func (r *txRunner) observe(c *txcache.TxCache) *txObs {
 	}
 	for _, k := range c.Keys() {
 		o.keys[string(k)] = true
+		// the returned hashes belong to the caller: writing into them must not reach the pool
+		for i := range k {
+			k[i] = 0
+		}
 	}
 	o.cnt = c.CountTx()
 	o.bytes = c.NumBytes()
@@ -835,6 +849,7 @@ func (r *txRunner) execSel(tok []string, line string) (string, string) {
 	maxNum, _ := strconv.Atoi(tok[2])
 	stop := tok[3] == "1"
 	s, _, explicit := r.parseSession(tok[4:])
+	s.pool = r.cache
 	dur := time.Hour
 	if stop {
 		dur = -1
@@ -1147,6 +1162,18 @@ func txDirected() [][]string {
 			"selb 1000000 1000 0 a:a0:7:1000000 a:b0:3:1000000",
 			"clear", "add a107",
 			"sel 1000000 1000 0 a:a0:7:1000000 a:b0:3:1000000"},
+		// zero-gas transactions behind an EXACTLY consumed gas budget: a candidate breaks the budget only when its gas limit
+		// exceeds what is left; zero does not (also with gasRequested = 0)
+		{"begin txcache chunks=2 evict=0 nb=1000000 nbs=1000000 c=1000 cs=100 n=1",
+			"tx a100 a0 0 2 50000 50 100000 0 -", "tx b100 b0 0 2 50000 50 100000 0 -",
+			"tx a101 a0 1 1 0 50 0 0 -", "tx c100 c0 0 1 0 50 0 0 -",
+			"add a100", "add b100", "add a101", "add c100",
+			"sel 100000 1000 0 a:a0:0:1000000 a:b0:0:1000000 a:c0:0:1000000",
+			"selb 100000 1000 0 a:a0:0:1000000 a:b0:0:1000000 a:c0:0:1000000",
+			"sel 50000 1000 0 a:a0:0:1000000 a:b0:0:1000000 a:c0:0:1000000",
+			"rm a100", "rm b100",
+			"sel 0 1000 0 a:a0:1:1000000 a:b0:0:1000000 a:c0:0:1000000",
+			"selb 0 1000 0 a:a0:1:1000000 a:b0:0:1000000 a:c0:0:1000000"},
 		// the same by bytes, several chunks, two senders cut
 		{"begin txcache chunks=16 evict=1 nb=400 nbs=1000000 c=1000 cs=100 n=2",
 			"tx a101 a0 0 1 10 50 10 0 -", "tx a102 a0 1 1 10 50 10 0 -", "tx a103 a0 2 1 10 50 10 0 -",
